@@ -41,7 +41,7 @@ QuickBase ==
   \cup {Conf("two", TRUE, "up", FALSE, ra, "E", "https") : ra \in Bools}
   \cup {Conf("bput", TRUE, "up", TRUE, FALSE, "E", "https"), Conf("mput", TRUE, "tok", TRUE, FALSE, "E", "https"),
         Conf("copy", TRUE, "up", FALSE, FALSE, "E", "https")}
-  \cup {Conf(op, TRUE, "up", TRUE, FALSE, "E", "https") : op \in {"bputc", "tags", "refs", "mputsub"}}
+  \cup {Conf(op, TRUE, "up", TRUE, FALSE, "E", "https") : op \in {"bputc", "tags", "refs"}}
   \cup {Conf("ext", TRUE, "up", FALSE, FALSE, e[1], e[2]) : e \in ExtURLs}
   \cup {Conf("mount", TRUE, "up", FALSE, TRUE, "E", "https")}
 QuickGenConfs ==
@@ -58,11 +58,18 @@ MidGenConfs == {IF c.mirror THEN c ELSE WithPorts(c) : c \in MidBase}
   \cup {WithCred(Conf("copy", TRUE, "up", FALSE, FALSE, "E", "https"), "B", k) : k \in {"tok", "uptok", "none"}}
   \cup {Conf("mount", TRUE, "tok", FALSE, TRUE, "E", "https"), Conf("mount", TRUE, "uptok", TRUE, FALSE, "E", "https"),
         Conf("mount", TRUE, "up", FALSE, FALSE, "E", "https"), Conf("copy", TRUE, "up", TRUE, FALSE, "E", "https")}
-  \cup {Conf(op, TRUE, "up", TRUE, FALSE, "E", "https") : op \in {"refsfb", "mdel", "tdel", "bdel", "ping"}}
+  \cup {Conf(op, TRUE, "up", TRUE, FALSE, "E", "https") : op \in {"refsfb", "mdel", "tdel", "bdel", "ping", "mputsub"}}
   \cup {Conf(op, TRUE, "tok", TRUE, TRUE, "E", "https") : op \in {"bputc", "tags", "refs", "mputsub"}}
 OtherCreds == {WithCred(c, "M", k) : c \in {x \in AllConfs : x.mirror}, k \in {"tok", "uptok", "none"}}
               \cup {WithCred(c, "B", k) : c \in {x \in AllConfs : x.op \in {"copy", "copyext"}}, k \in {"tok", "uptok", "none"}}
 SimConfs == AllConfs \cup {WithPorts(c) : c \in AllConfs} \cup OtherCreds
+\* redirect chains (round 4): three redirects / challenges in a row for one blob GET, targets that net/http
+\* regards as the same site (sub domain, same name on another port), the registry itself and a foreign host
+ChainConfs == {WithPorts(Conf("bget", TRUE, c, FALSE, FALSE, "E", "https")) : c \in {"up", "uptok"}}
+PageConfs == {Conf(op, TRUE, c, TRUE, FALSE, "E", "https") : op \in {"tags", "refs"}, c \in {"up", "tok"}}
+ChainChal == {"b1", "t"}
+ChainRedir == {<<"S", "https">>, <<"P", "https">>, <<"A", "https">>, <<"R", "https">>}
+Nothing == {}
 DeepConfs ==
   {Conf("bget", TRUE, "up", FALSE, FALSE, "E", "https"), Conf("ext", TRUE, "up", FALSE, FALSE, "E", "https"),
    Conf("copy", TRUE, "up", FALSE, FALSE, "E", "https")}
